@@ -175,6 +175,9 @@ def main():
         chk.add(poisson_solve, real_t=rt, dim=3, shape=(2, 3, 2), x_range=1.0, vector=True)
         chk.add(second_solve_independent_of_first, real_t=rt, dim=2, shape=(3, 4))
         chk.add(second_solve_independent_of_first, real_t=rt, dim=3, shape=(2, 2, 3))
+    if chk.quick:
+        chk.add(poisson_solve, real_t="float32", dim=2, shape=(3, 2), x_range=1.0, vector=False)
+        chk.add(poisson_solve, real_t="float32", dim=3, shape=(2, 3, 2), x_range=1.0, vector=True)
     chk.bounds = [f"2D shapes {s2}", f"3D shapes {s3}", f"x_range in {xr}; precisions {rts}", "rhs cells symbolic in [-1,1]; all three work buffers and the solution array arbitrary symbolic (any earlier history)",
                   f"tolerances (absolute): {TOL}"]
     chk.outside = ["larger shapes (cost of the exact DFT grows as (2n)^d n^d)", "FFTW itself (replaced by its mathematical contract, validated numerically on every shape)", "rounding inside solve()"]
